@@ -2,7 +2,7 @@
 import ast
 
 from vstat.loader import AnalysisError
-from vstat.terms import builder, guarded_alts, show, SELF, NONE, G, alts, walk, mentions, phi, strip_none
+from vstat.terms import builder, guarded_alts, neg_test, show, SELF, NONE, G, alts, walk, mentions, phi, strip_none
 from vstat.guards import path_conditions
 from vstat.cfg import cfg_of
 from vstat.sigs import bind
@@ -207,17 +207,24 @@ def size(prog, rep):
     b = builder(prog, fn)
     pcs = path_conditions(prog, fn, b)
     rets = [s for s in cfg_of(fn).all_stmts() if isinstance(s, ast.Return)]
-    vec = [r for r in rets if b.term(r.value, r)[0] == "tuple"]
-    sca = [r for r in rets if b.term(r.value, r) == P("n")]
+    # every returned alternative (several returns, or one conditional expression) with the literals it is returned under
+    results = []
+    for r in rets:
+        for lits, v in guarded_alts(b.term(r.value, r)):
+            results.append((r, tuple(pcs.of(r)) + tuple(lits), v))
+    vec = [r for r, _l, v in results if v[0] == "tuple"]
+    sca = [r for r, _l, v in results if v == P("n")]
     okv = False
     if len(vec) == 1:
-        t = b.term(vec[0].value, vec[0])
+        t = [v for _r, _l, v in results if v[0] == "tuple"][0]
         if len(t[1]) == 2 and t[1][0] == P("n"):
             lens = [a for a in alts(t[1][1]) if a != ("const", 0)]
             okv = bool(lens) and all(a[0] == "call" and a[1] == G("len") and a[2] and a[2][0][0] == "sub" and a[2][0][1] == P("pars") for a in lens)
     rep.check(okv, "C07.size", f"{q}:vector", fn.where(vec[0]) if vec else fn.where(), "(n, len(par)) when a parameter is iterable",
               "with vector-valued parameters the rvs size must be (n, len(parameter vector))")
-    rep.check(len(sca) == 1 and len(rets) == 2, "C07.size", f"{q}:scalar", fn.where(sca[0]) if sca else fn.where(), "n otherwise",
+    flags = [l for _r, l, _v in results]
+    complementary = len(results) == 2 and len(flags[0]) == 1 and len(flags[1]) == 1 and neg_test(flags[0][0]) == flags[1][0]
+    rep.check(len(sca) == 1 and len(results) == 2 and complementary, "C07.size", f"{q}:scalar", fn.where(sca[0]) if sca else fn.where(), "n otherwise",
               "with scalar parameters the rvs size must be n")
 
 
